@@ -183,11 +183,22 @@ func teWithdraw(ctx *messageContext, payload []byte) error {
 	//update total
 	newVal.Token.Sub(newVal.Token, withdrawToken)
 	newVal.Stake.Sub(newVal.Stake, delta)
+	payLeftoverRewards(ctx, newVal)
 
 	ctx.State.UpdateValidator(newVal, old)
 
 	addWithdrawLog(ctx, newVal, tx.Recipient, common.Address{}, newVal.SelfToken, newVal.SelfStake, withdrawToken, delta, changed, newVal.Status, 0)
 	return nil
+}
+
+// payLeftoverRewards hands the settlement residue to the reward address when a validator is
+// emptied: a validator without tokens is deleted at the end of the block, and whatever is left
+// in RewardsDistributable would vanish with it.
+func payLeftoverRewards(ctx *messageContext, val *state.Validator) {
+	if val.Token.Sign() == 0 && val.RewardsDistributable.Sign() > 0 {
+		ctx.State.AddBalance(val.Coinbase, val.RewardsDistributable)
+		val.RewardsDistributable.SetUint64(0)
+	}
 }
 
 func teChangeStatus(ctx *messageContext, payload []byte) error {
@@ -317,6 +328,11 @@ func teDelegationSub(ctx *messageContext, payload []byte) error {
 	if newVal.IsOnline() && newVal.Stake.Uint64() < ctx.Cfg.MinStakes[newVal.Role] {
 		val := newVal.PartialCopy()
 		newVal.Status = params.ValidatorOffline // force to offline
+		db.UpdateValidator(newVal, val)
+	}
+	if newVal.Token.Sign() == 0 && newVal.RewardsDistributable.Sign() > 0 {
+		val := newVal.PartialCopy()
+		payLeftoverRewards(ctx, newVal)
 		db.UpdateValidator(newVal, val)
 	}
 
